@@ -82,7 +82,7 @@ def Rep.wins (r : Rep) (id : Id) (prio : Nat) (e : Key × Val) : Bool :=
 def Rep.putElems (r : Rep) (id : Id) (prio : Nat) (es : List (Key × Val)) : Rep × List Hook :=
   let ws := es.filter (r.wins id prio)
   ({ r with elems := es.map (fun e => (e.1, id)) ++ r.elems,
-            vals := ws.reverse.map (fun e => (e.1, (prio, e.2))) ++ r.vals },
+            vals := ws.foldl (fun vs e => (e.1, (prio, e.2)) :: vs) r.vals },
    ws.map (fun e => Hook.put e.1 e.2))
 
 /-- `set.Merge`: tombstones first, then elements -/
@@ -93,6 +93,40 @@ def Rep.merge (r : Rep) (d : Delta) : Rep × List Hook :=
 
 /-- a replica that merged the deltas of `l` in list order -/
 def mergeAll (l : List Delta) (r : Rep) : Rep := l.foldl (fun r d => (r.merge d).1) r
+
+/-- DAG workers run concurrently (`NumWorkers`): `putElems` calls exclude each other, `putTombs`
+    does not take the lock, so what a replica really executes is an interleaving of the two
+    phases of the deltas it processes (a delta may also be processed more than once) -/
+inductive Ph where
+  | T (d : Delta)      -- putTombs of d
+  | E (d : Delta)      -- putElems of d
+  deriving DecidableEq, Repr
+
+def Rep.applyPh (r : Rep) : Ph → Rep
+  | .T d => (r.putTombs d.tombs).1
+  | .E d => (r.putElems d.id d.prio d.elems).1
+
+def runPh (l : List Ph) (r : Rep) : Rep := l.foldl Rep.applyPh r
+
+/-- the phases of merging the deltas of `l` one after the other -/
+def phasesOf (l : List Delta) : List Ph := l.flatMap (fun d => [.T d, .E d])
+
+/-! ### decidable readings of the hypotheses of the value-convergence theorem over a history -/
+
+def lexLeB (a b : Nat × Nat) : Bool := decide (a.1 < b.1) || (a.1 == b.1 && decide (a.2 ≤ b.2))
+
+/-- no delta of the history tombstones element `(k, id)` -/
+def neverTombed (l : List Delta) (k : Key) (id : Id) : Bool := !(l.any fun t => t.tombs.contains (k, id))
+
+/-- (H2 for key `k`) if some element of `k` is never tombstoned, then some never-tombstoned
+    element of `k` carries the greatest (priority, value) among all elements of `k` -/
+def maxSurvivesK (l : List Delta) (k : Key) : Bool :=
+  !(l.any fun d => d.elems.any (fun e => e.1 == k) && neverTombed l k d.id) ||
+  l.any fun m => neverTombed l k m.id && m.elems.any fun me => me.1 == k &&
+    l.all fun d2 => d2.elems.all fun e2 => e2.1 != k || lexLeB (d2.prio, e2.2) (m.prio, me.2)
+
+/-- (H1 for key `k`) no delta puts `k` twice -/
+def singlePutK (l : List Delta) (k : Key) : Bool := l.all fun d => decide ((d.elems.filter (·.1 == k)).length ≤ 1)
 
 /-! ### local operations of the crdt Datastore -/
 
